@@ -89,6 +89,12 @@ static std::string check_living(int mi, int ti, int hist) {
                 auto eo = c->get_edge(pr[which][0], pr[which][1]); if (eo) { edge e = *eo; bool can = false; try { can = lmr.can_be_merged(e, c); } catch (...) {} if (can) { edge_set es = c->get_edge_set(); try { lmr.merge_edge(e, c, es); ok = !c->face_lst_[0].is_used_; } catch (...) {} } }
                 if (ok && follow == 1) ok = merge_one(false); if (ok && follow == 2) ok = merge_one(true); } }
         if (!ok || c->get_nb_of_nodes() == c->node_lst_.size() || !sc::oracle_mesh(*c, [] { sc::OracleOpts o; o.check_cached_geometry = false; o.flat_is_error = false; return o; }()).empty()) { c->clear_data(); return "skip"; }
+        // what the collapses and splits themselves leave behind (no node has moved since the caches were computed, so every cached triangle area and normal must be that of the triangle as it is now):
+        // the area the cell reports from its caches is the sum of the triangle areas, before any refresh
+        { char b0[300]; long double asum = 0; for (const face& f : c->face_lst_) { if (!f.is_used_) continue; const vec3 &p0 = c->node_lst_[f.n1_id_].pos_, &p1 = c->node_lst_[f.n2_id_].pos_, &p2 = c->node_lst_[f.n3_id_].pos_; const vec3 nn = (p1 - p0).cross(p2 - p0); const double a = 0.5 * nn.norm(); asum += a;
+              if (std::fabs(f.get_area() - a) > 1e-9 * size * size) { snprintf(b0, sizeof b0, "area-differs-from-sum-of-triangle-areas: after the remeshing operations alone, face %u caches the area %.17g, its triangle has %.17g", f.local_face_id_, f.get_area(), a); c->clear_data(); return b0; }
+              if (a > 1e-9 * size * size && f.get_normal().dot(nn) <= 0) { snprintf(b0, sizeof b0, "normal-does-not-point-out-of-the-cell: after the remeshing operations alone, the cached normal of face %u opposes its winding", f.local_face_id_); c->clear_data(); return b0; } }
+          const double rep = c->compute_area(); if (std::fabs(rep - (double)asum) > 1e-9 * (double)asum) { snprintf(b0, sizeof b0, "area-differs-from-sum-of-triangle-areas: after the remeshing operations alone the cell reports %.17g, the live triangles add up to %.17Lg", rep, asum); c->clear_data(); return b0; } }
         c->update_all_face_normals_and_areas(); c->area_ = c->compute_area(); c->volume_ = c->compute_volume(); sc::Geom g = sc::geom_of(*c); char buf[300]; std::string e;
         const double tmag = std::fabs(g_trans[ti][0]) * size, ctol = 1e-9 * size + 1e-13 * tmag; vec3 cen = c->compute_centroid(); auto bb = c->get_aabb();
         if (!(std::fabs(c->get_volume() - (double)g.vol) <= (1e-9 + 2.3e-16 * (std::fabs(g_trans[ti][0]) + 1) * 40) * (double)g.vol)) { snprintf(buf, sizeof buf, "volume-differs-from-enclosed-volume: living cell reports %.17g, live triangles enclose %.17g", c->get_volume(), (double)g.vol); e = buf; }
